@@ -1,0 +1,7 @@
+//go:build !verif
+
+package gkvlite
+
+// verifYield marks a scheduling point for the verification harness.  It is a
+// no-op unless the package is built with the "verif" build tag.
+func verifYield(point string) {}
